@@ -40,6 +40,54 @@ def run(ctx):
     _r6(ctx)
     _r7(ctx)
     _r8(ctx)
+    _r10_r11(ctx)
+
+
+def _r10_r11(ctx):
+    P = ctx.P
+    # ---- R10: the address tested against a rule's prefixes is the peer address as the socket reported it
+    n = 0
+    for b in P.bodies.values():
+        if not b.id.startswith("erbium::acl::") or "::test" in b.id:
+            continue
+        T = None
+        for bb, tm in b.calls():
+            nme = callee_name(tm) or ""
+            if nme.endswith("::contains") and ("config::Prefix" in nme or "config::Match" in (tm["callee"].get("decl") or "") or "Match<" in nme):
+                T = T or terms(P, b)
+                a = norm(T.call_args(bb)[1])
+                n += 1
+                ctx.saw(b)
+                good = a[0] == "payload" and norm(a[2])[0] == "call" and str(norm(a[2])[1]).endswith("NetAddrExt>::ip") and \
+                    any(y[0] == "field" and y[2] == "addr" for y in subterms(a))
+                ctx.check(good, "R10", "rule-tested-against-the-peer-address-as-reported", ctx.where(b, tm["sp"]),
+                          "the prefixes of a rule must be tested against attr.addr.ip() itself (is %s): converting the address first "
+                          "(to_canonical, to_ipv4, ...) changes which family's containment is used — an IPv4-mapped peer then no longer "
+                          "matches `::/0`" % show(a)[:120])
+    ctx.floor("R10", "prefix containment tests in the rule matcher", n, 1)
+    # ---- R11: the built-in rule list applies only when none was configured (an explicit empty list means: nobody)
+    n = 0
+    for b, bb, idx, st in find_aggs(P, "erbium::config::Config"):
+        if not st["rv"].get("adt", "").endswith("config::Config") or "::test" in b.id or "acls" not in (st["rv"].get("fields") or []):
+            continue
+        T = terms(P, b)
+        t = norm(T.rvalue(st["rv"], bb, idx))
+        v = norm(dict(t[3])["acls"])
+        uses_default = any(y[0] == "call" and str(y[1]).endswith("acl::default_acls") for y in subterms(v)) or any(
+            y[0] == "agg" and str(y[1]).startswith("closure:") for y in subterms(v))
+        if not uses_default:
+            continue
+        n += 1
+        ctx.saw(b)
+        good = False
+        if v[0] == "call" and str(v[1]).rsplit("::", 1)[-1] in ("unwrap_or_else", "unwrap_or") and "Option" in str(v[1]):
+            src = norm(v[2][0])
+            alts = src[1] if src[0] == "phi" else (src,)
+            good = all((x[0] == "agg" and x[2] == "None") or (x[0] == "payload" and norm(x[2])[0] == "call" and str(norm(x[2])[1]).endswith("parse_array")) for x in [norm(x) for x in alts])
+        ctx.check(good, "R11", "default-acls-only-when-no-list-was-configured", ctx.where(b, st["sp"]),
+                  "Config.acls must be <what `acls:` parsed to, as an Option>.unwrap_or_else(default_acls): `acls: []` is a configured list "
+                  "(nobody is granted anything) and must not fall back to the defaults (is %s)" % show(v)[:140])
+    ctx.floor("R11", "places where the default rule list is installed", n, 1)
 
 
 # ------------------------------------------------------------------ R1 HTTP routes
